@@ -5,3 +5,14 @@ import PygyroVerif.Model.Layout
 import PygyroVerif.Lemmas.Blocks
 import PygyroVerif.Props.C02
 import PygyroVerif.Model.BSpline
+import PygyroVerif.Model.CubicUniform
+import PygyroVerif.Lemmas.BSpline
+import PygyroVerif.Props.C07
+import PygyroVerif.Model.Density
+import PygyroVerif.Lemmas.Poisson
+import PygyroVerif.Props.C16
+import PygyroVerif.Model.NDView
+import PygyroVerif.Model.Handler
+import PygyroVerif.Lemmas.TransposeCore
+import PygyroVerif.Lemmas.Route
+import PygyroVerif.Props.C01
